@@ -37,6 +37,3 @@ type Spec_criterionReversalResult struct {
 	consideredAlternatives    *[]model.AlternativeWithCriteria
 	alternativesValues        *[]model.Weights
 }
-
-type Spec_PreferenceReversalParams struct {
-}
